@@ -321,6 +321,7 @@ class Env:
         self.unknown_arrays = []   # arrays FORD cannot see (region: unresolved array)
         self.unknown_procs = []    # external procedures declared nowhere
         self.assoc = []      # stack of lists of (name, kind) kind in "array","obj:<type>","func"
+        self.recent = []     # call-like references of the statement being generated
         self.knobs = {}
 
 
@@ -405,7 +406,27 @@ def chain_through(rng, env, depth, obj, tname, call):
 
 
 def gen_ref(rng, env, depth):
-    """name(args) in one of its meanings, or a component chain"""
+    """a reference; often one that the same statement already holds: verbatim (same or another nesting
+    level, condition + CALL arguments) or nested in itself, g(g(x))"""
+    rec = env.recent
+    if rec and rng.random() < env.knobs.get("p_repeat", 0.3):
+        prev = rng.choice(rec)
+        if prev[1][0] == "la" and rng.random() < 0.4:
+            return ("des", ("la", prev[1][1], prev))
+        return prev
+    r, k = gen_ref_new(rng, env, depth)
+    if k in ("func", "uproc", "chain") and r[0] == "des":
+        rec.append(r)
+    return r
+
+
+def gen_ref_new(rng, env, depth):
+    """(name(args) in one of its meanings, or a component chain; what it is)"""
+    r, k = _gen_ref_new(rng, env, depth)
+    return r, k
+
+
+def _gen_ref_new(rng, env, depth):
     opts = []
     if env.funcs:
         opts += ["func"] * 4
@@ -426,30 +447,31 @@ def gen_ref(rng, env, depth):
     k = rng.choice(opts)
     if k == "func":
         f, n = rng.choice(env.funcs)
-        return ("des", ("la", f, gen_args(rng, env, depth - 1, n if rng.random() < 0.8 else None)))
+        return ("des", ("la", f, gen_args(rng, env, depth - 1, n if rng.random() < 0.8 else None))), k
     if k == "array":
-        return ("des", ("la", rng.choice(env.arrays), gen_index(rng, env, depth - 1)))
+        return ("des", ("la", rng.choice(env.arrays), gen_index(rng, env, depth - 1))), k
     if k == "intrinsic":
-        return ("des", ("la", rng.choice(INTRINSIC_FUNCS), gen_args(rng, env, depth - 1, rng.choice([1, 1, 2]))))
+        return ("des", ("la", rng.choice(INTRINSIC_FUNCS), gen_args(rng, env, depth - 1, rng.choice([1, 1, 2])))), k
     if k == "ctor":
-        return ("des", ("la", rng.choice(sorted(env.types)), gen_args(rng, env, depth - 1, 1)))
+        return ("des", ("la", rng.choice(sorted(env.types)), gen_args(rng, env, depth - 1, 1))), k
     if k == "uarray":
-        return ("des", ("la", rng.choice(env.unknown_arrays), gen_index(rng, env, depth - 1)))
+        return ("des", ("la", rng.choice(env.unknown_arrays), gen_index(rng, env, depth - 1))), k
     if k == "uproc":
-        return ("des", ("la", rng.choice(env.unknown_procs), gen_args(rng, env, depth - 1)))
+        return ("des", ("la", rng.choice(env.unknown_procs), gen_args(rng, env, depth - 1))), k
     if k == "assoc":
         an, akind = rng.choice(live)
         if akind.startswith("obj:"):
             d = chain_through(rng, env, depth, an, akind[4:], False)
             if d is not None:
-                return ("des", d)
-            return name(an)
-        return ("des", ("la", an, gen_index(rng, env, depth - 1)))
+                return ("des", d), k
+            return name(an), k
+        return ("des", ("la", an, gen_index(rng, env, depth - 1))), k
+    k = "chain"
     obj, tname = rng.choice(env.objs)
     d = chain_through(rng, env, depth, obj, tname, False)
     if d is None:
-        return name(obj)
-    return ("des", d)
+        return name(obj), k
+    return ("des", d), k
 
 
 def gen_lhs(rng, env, depth):
@@ -510,6 +532,7 @@ def gen_ptree(rng, depth):
 def gen_simple_stmt(rng, env, depth):
     """one statement that is not a construct"""
     sp = rng.random() < 0.7
+    env.recent = []
     lab = gen_label(rng, env.knobs.get("p_label", 0.06))
     E = lambda d=depth, **kw: gen_expr(rng, env, d, **kw)
     k = rng.choice(["assign"] * 6 + ["call"] * 5 + ["ifcall"] * 3 + ["ifassign"] * 2 + ["io"] * 3 + ["print"] * 2 +
@@ -589,6 +612,7 @@ def gen_body(rng, env, n, depth):
     while len(out) < n:
         r = rng.random()
         sp = rng.random() < 0.7
+        env.recent = []
         E = lambda d=depth: gen_expr(rng, env, d)
         if r < 0.62:
             out.append(gen_simple_stmt(rng, env, depth))
